@@ -10,6 +10,7 @@ import (
 	"time"
 
 	"github.com/massnetorg/mass-core/consensus"
+	"github.com/massnetorg/mass-core/wire"
 	"massnet.org/mass-wallet/masswallet/keystore"
 
 	"verifharness/core"
@@ -71,6 +72,9 @@ func (e *c18Env) hook(ev *sim.Event) error {
 	}
 	n := atomic.AddInt64(&e.counter, 1)
 	if e.failAt > 0 && n >= e.failAt && n < e.failAt+e.failLen && atomic.LoadInt32(&e.fired) == 0 {
+		if os.Getenv("VERIF_C18_ONLY") != "" {
+			fmt.Fprintf(os.Stderr, "C18DBG inject #%d at call %d: %s %s role=%s step=%v\n", atomic.LoadInt64(&e.fires)+1, n, ev.Kind, ev.Bucket, ev.Role, e.stepTag.Load())
+		}
 		if atomic.AddInt64(&e.fires, 1) == 1 {
 			atomic.StoreInt32(&e.hit, 1)
 			e.firedKind = ev.Kind + " " + ev.Bucket
@@ -236,6 +240,88 @@ func (e *c18Env) block(step string, fork bool) error {
 	return e.settle(step, start)
 }
 
+// pendingAndSettle: two unconfirmed spends of wallet coins are delivered; the next block confirms
+// one as it is and double-spends the other (the pending-input index is read, written and cleaned).
+func (e *c18Env) pendingAndSettle(step string) error {
+	start := e.begin(step)
+	old := e.wd.R
+	e.wd.R = e.rs
+	defer func() { e.wd.R = old }()
+	v, err := sim.ViewOfChain(e.wd.N.BestChain())
+	if err != nil {
+		return err
+	}
+	owned := e.wd.AllOwned()
+	var coins []*sim.Out
+	for _, o := range v.Outs {
+		if _, mine := owned[o.Hash]; mine && o.HasHash && !o.Spent && o.Class == sim.ClassStd && v.Mature(o) && o.Value > 200000 {
+			coins = append(coins, o)
+		}
+	}
+	sort.Slice(coins, func(i, j int) bool {
+		if coins[i].OP.Hash != coins[j].OP.Hash {
+			return coins[i].OP.Hash.String() < coins[j].OP.Hash.String()
+		}
+		return coins[i].OP.Index < coins[j].OP.Index
+	})
+	// the second input of each pending transaction is a coin of wallet a (the wallet that stays and
+	// is observed at the end): put a's coins at the odd positions
+	var aCoins, other []*sim.Out
+	for _, o := range coins {
+		if len(e.wd.Keys) > 0 && e.wd.Keys[0].Owned[o.Hash] {
+			aCoins = append(aCoins, o)
+		} else {
+			other = append(other, o)
+		}
+	}
+	if len(aCoins) >= 2 {
+		first := append(append([]*sim.Out{}, other...), aCoins[2:]...)
+		if len(first) >= 2 {
+			coins = []*sim.Out{first[0], aCoins[0], first[1], aCoins[1]}
+		} else if len(first) == 1 {
+			coins = []*sim.Out{first[0], aCoins[0]}
+		}
+	}
+	var carry []*wire.MsgTx
+	avoid := map[wire.OutPoint]bool{}
+	// each pending transaction spends two wallet coins, so that a wrongly kept pending record or
+	// pending-input entry shows on the second coin (which stays or becomes unspent again)
+	if len(coins) >= 2 {
+		c, d := coins[0], coins[1]
+		p1 := sim.Spend([]wire.OutPoint{c.OP, d.OP}, nil, []*wire.TxOut{wire.NewTxOut(c.Value+d.Value-50000, sim.P2WSH(e.wd.StrangerPub()))}, e.rs.Uint64()|1)
+		e.wd.W.DeliverTx(p1)
+		carry = append(carry, p1) // confirmed as it is
+		avoid[c.OP], avoid[d.OP] = true, true
+	}
+	if len(coins) >= 4 {
+		c, d := coins[2], coins[3]
+		p2 := sim.Spend([]wire.OutPoint{c.OP, d.OP}, nil, []*wire.TxOut{wire.NewTxOut(c.Value+d.Value-60000, sim.P2WSH(e.wd.StrangerPub()))}, e.rs.Uint64()|1)
+		e.wd.W.DeliverTx(p2)
+		e.wd.Logf("pending p2 %s spends %s:%d and %s:%d", p2.TxHash().String()[:10], c.OP.Hash.String()[:10], c.OP.Index, d.OP.Hash.String()[:10], d.OP.Index)
+		conflict := sim.Spend([]wire.OutPoint{c.OP}, nil, []*wire.TxOut{wire.NewTxOut(c.Value-70000, sim.P2WSH(e.wd.StrangerPub()))}, e.rs.Uint64()|1)
+		e.wd.Logf("conflict %s spends %s:%d", conflict.TxHash().String()[:10], c.OP.Hash.String()[:10], c.OP.Index)
+		carry = append(carry, conflict) // double-spends the pending one through its first input only
+		// the second input stays unspent for the rest of the history: its pending-spend flag at the end
+		// tells whether the double-spent transaction was purged
+		if e.wd.Keep == nil {
+			e.wd.Keep = map[wire.OutPoint]bool{}
+		}
+		e.wd.Keep[d.OP] = true
+		avoid[c.OP], avoid[d.OP] = true, true
+	}
+	e.wd.W.Quiesce(40 * time.Second)
+	b, err := e.wd.BuildBlockAvoiding(e.wd.N.Tip(), carry, e.rs.Range(0, 2), avoid)
+	if err != nil {
+		return err
+	}
+	if err := e.wd.N.Extend(b); err != nil {
+		return err
+	}
+	e.wd.Logf("extend h=%d %s (confirms one pending spend, double-spends another)", b.Height, b.Hash.String()[:10])
+	e.wd.W.Deliver(b)
+	return e.settle(step, start)
+}
+
 func (e *c18Env) scenario() error {
 	if err := e.importWallet("a"); err != nil {
 		return err
@@ -255,6 +341,14 @@ func (e *c18Env) scenario() error {
 	for i := 0; i < 9; i++ {
 		if err := e.block(fmt.Sprintf("block %d", i), i == 5 || i == 8); err != nil {
 			return err
+		}
+		// (two more blocks follow before the next reorganisation of depth ≤ 2: the block that settles
+		// the pending transactions is never abandoned - what a wallet knows from a block that was
+		// abandoned later is not comparable between the runs, see DESIGN.md Corrections)
+		if i == 2 || i == 5 {
+			if err := e.pendingAndSettle(fmt.Sprintf("pending %d", i)); err != nil {
+				return err
+			}
 		}
 	}
 	// a freshly created wallet (random entropy: only its existence and uniqueness are compared)
@@ -397,6 +491,18 @@ func c18Run(t *core.T, seed uint64, dir string, failAt, failLen int64, record bo
 			serr = fmt.Errorf("violation: ledger: %s", strings.Join(lines, " | "))
 		}
 	}
+	if os.Getenv("VERIF_C18_ONLY") != "" {
+		fmt.Fprintf(os.Stderr, "C18DBG world ops:\nC18DBG   %s\n", strings.Join(tailStr(e.wd.Ops, 40), "\nC18DBG   "))
+		for _, path := range [][]string{{"u", "mi"}, {"t", "m"}} {
+			if raw, err := w.RawBucket(path...); err == nil {
+				for k, v := range raw {
+					fmt.Fprintf(os.Stderr, "C18DBG raw %v: %x -> %x\n", path, []byte(k), firstNBytes(v, 40))
+				}
+			} else {
+				fmt.Fprintf(os.Stderr, "C18DBG raw %v: %v\n", path, err)
+			}
+		}
+	}
 	if !w.Stop(30*time.Second) && serr == nil {
 		serr = fmt.Errorf("inconclusive: Stop did not return")
 	}
@@ -487,6 +593,9 @@ func c18Case(t *core.T, steps []string, maxPerStep int) {
 		obs, e, err := c18Run(t, seed, filepath.Join(t.Dir, fmt.Sprintf("run%d", ji)), j.i, j.n, false)
 		w := map[string]interface{}{"failed_call_index": j.i, "consecutive_failures": j.n, "step_in_fault_free_run": j.step, "failed_call": e.firedKind, "step_when_fired": e.firedStep, "log": e.log, "world_ops_tail": tailStr(e.wd.Ops, 30)}
 		kind := strings.Fields(j.step)[0]
+		if os.Getenv("VERIF_C18_ONLY") != "" || os.Getenv("VERIF_C18_TRACE") != "" {
+			fmt.Fprintf(os.Stderr, "C18DBG fault %d x%d fired at %q during %q err=%v fires=%d\n", j.i, j.n, e.firedKind, e.firedStep, err, atomic.LoadInt64(&e.fires))
+		}
 		if err != nil {
 			if strings.HasPrefix(err.Error(), "inconclusive") {
 				t.Inconclusive(fmt.Sprintf("call %d (%s): %v", j.i, j.step, err))
@@ -502,6 +611,30 @@ func c18Case(t *core.T, steps []string, maxPerStep int) {
 		if strings.Join(e.addrs, ",") != strings.Join(twin.addrs, ",") {
 			t.Violate("address-index-skipped-or-duplicated", fmt.Sprintf("storage call %d (%s, during '%s') failed (%d×): NewAddress sequence %v differs from the fault-free run %v", j.i, e.firedKind, j.step, j.n, shortAddrs(e.addrs), shortAddrs(twin.addrs)), w)
 			continue
+		}
+		if d := obs.Diff(twinObs); d != "" && os.Getenv("VERIF_C18_ONLY") != "" {
+			for _, id := range []string{e.ids["a"]} {
+				a, b := obs.W[id], twinObs.W[id]
+				if a != nil && b != nil {
+					for i := range a.Utxos {
+						if i < len(b.Utxos) && a.Utxos[i] != b.Utxos[i] {
+							fmt.Fprintf(os.Stderr, "C18DBG utxo differs: fault-run %+v\nC18DBG               twin      %+v\n", a.Utxos[i], b.Utxos[i])
+						}
+					}
+					fmt.Fprintf(os.Stderr, "C18DBG utxo counts %d vs %d\n", len(a.Utxos), len(b.Utxos))
+				}
+			}
+			if raw, err := e.wd.W.RawBucket("u", "mi"); err == nil {
+				for k, v := range raw {
+					fmt.Fprintf(os.Stderr, "C18DBG pending-input entry: outpoint %x -> %x\n", []byte(k), v)
+				}
+			}
+			if raw, err := e.wd.W.RawBucket("t", "m"); err == nil {
+				for k := range raw {
+					fmt.Fprintf(os.Stderr, "C18DBG pending record in fault run: %x\n", []byte(k))
+				}
+			}
+			fmt.Fprintf(os.Stderr, "C18DBG ops: %s\n", strings.Join(tailStr(e.wd.Ops, 16), "\nC18DBG      "))
 		}
 		if d := obs.Diff(twinObs); d != "" {
 			t.Violate("state-after-fault-differs:"+kind, fmt.Sprintf("storage call %d (%s, during '%s') failed (%d×): final observation differs from the fault-free twin: %s", j.i, e.firedKind, j.step, j.n, d), w)
@@ -529,7 +662,7 @@ func shortAddrs(a []string) []string {
 
 var c18Groups = [][]string{
 	{"import a"}, {"import b"}, {"import-task"}, {"newaddress"}, {"create"}, {"remove b"}, {"remove-task"},
-	{"block 0", "block 1"}, {"block 2", "block 3"}, {"block 4", "block 5"}, {"block 6", "block 7"}, {"block 8"}, {"flush"},
+	{"block 0", "block 1"}, {"block 2", "block 3"}, {"block 4", "block 5"}, {"block 6", "block 7"}, {"block 8"}, {"flush"}, {"pending"},
 }
 
 func init() {
@@ -537,7 +670,7 @@ func init() {
 	core.Register(&core.Property{
 		ID:    "C18",
 		Level: "fault_enumeration",
-		Rule: "case = one group of steps of a deterministic scenario (import of two wallets by mnemonic incl. their background import tasks, three NewAddress calls, nine blocks incl. two reorgs, CreateWallet, another NewAddress, RemoveWallet + background removal while blocks arrive, two flush blocks). A fault-free twin numbers every wallet-database call and maps it to its step; " +
+		Rule: "case = one group of steps of a deterministic scenario (import of two wallets by mnemonic incl. their background import tasks, three NewAddress calls, nine blocks incl. two reorgs and two rounds of unconfirmed wallet spends of which the next block confirms one and double-spends the other, CreateWallet, another NewAddress, RemoveWallet + background removal while blocks arrive, two flush blocks). A fault-free twin numbers every wallet-database call and maps it to its step; " +
 			"for the group's steps every call index (quick: all when ≤70 per step, else first/last four + seeded sample; thorough: all, in four scenarios per group) is failed once without forwarding, and again as a repeated failing call (3 consecutive calls from that index on for a seeded quarter of the indexes; thorough: 2, 3 and 6 for all); user operations that report failure are repeated while a fault was injected during the attempt, handler/worker operations retry by themselves. " +
 			"Oracles: an attempt during which no call failed succeeds; every NewAddress returns the twin's address; wallet list has exactly the expected wallets once; final observation == twin == ledger; no follower death. distinct_nontrivial = distinct (step, call index, call kind) runs in which the fault was actually hit",
 		Assumptions: []string{"a storage fault is an error returned by the database interface without performing the call (for commit: nothing written); real I/O errors that LevelDB latches until reopen are out of scope", "CreateWallet uses fresh entropy: only existence, uniqueness and usability of the created wallet are compared"},
@@ -549,7 +682,12 @@ func init() {
 			return len(c18Groups)
 		},
 		Run: func(t *core.T) {
-			c18Case(t, c18Groups[t.Index%len(c18Groups)], limits[t.Tier])
+			g := c18Groups[t.Index%len(c18Groups)]
+			lim := limits[t.Tier]
+			if g[0] == "pending" {
+				lim = 100000 // the pending-transaction steps are short: every index also in the quick tier
+			}
+			c18Case(t, g, lim)
 		},
 		Finish: func(m *core.Merged) {
 			all := true
@@ -563,4 +701,11 @@ func init() {
 			m.Exhaustive = &all
 		},
 	})
+}
+
+func firstNBytes(b []byte, n int) []byte {
+	if len(b) > n {
+		return b[:n]
+	}
+	return b
 }
